@@ -117,6 +117,7 @@ PROPS = {
                      "past the deadline; that a blocked read really returns after the socket timeout is the transport's assumed behaviour"]),
     "C13": dict(
         functions=[PA + "WebSocketApp._callback", PA + RFN + "read", D_ + "Dispatcher.read", D_ + "SSLDispatcher.read", D_ + "SSLDispatcher.select",
+                   PA + "WebSocketApp.send", PA + "WebSocketApp.send_text", PA + "WebSocketApp.send_bytes", K + "WebSocket._recv",
                    A + "frame_buffer.recv_frame", A + "frame_buffer.recv_strict", K + "WebSocket.recv_data_frame", SETSOCK + "@@reconnect=on,external"],
         functions_thorough=[SETSOCK],
         lemmas=[], bounded=[appsim.bounded("C13")], trusted_base=[T_TRANSPORT, T_CB, T_SEL],
@@ -125,7 +126,7 @@ PROPS = {
     "C14": dict(
         functions=[PA + RFN + "teardown", PA + RFN + "read", PA + RFN + "handleDisconnect", PA + "WebSocketApp.run_forever",
                    PA + "WebSocketApp._get_close_args", PA + "WebSocketApp._stop_ping_thread", PA + "WebSocketApp._callback", K + "WebSocket.close", SETSOCK + "@@reconnect=off,external",
-                   D_ + "Dispatcher.read", D_ + "SSLDispatcher.read"],
+                   D_ + "Dispatcher.read", D_ + "SSLDispatcher.read", PA + "WebSocketApp.close"],
         functions_thorough=[SETSOCK, D_ + "DispatcherBase.reconnect"],
         lemmas=[], bounded=[appsim.bounded("C14")], trusted_base=[T_TRANSPORT, T_CB, T_SEL, T_THREAD],
         assumptions=[BOUNDED_COMPOSITION + " (here: the try/except/finally of run_forever reaches teardown on every exit path; the return value)"],
@@ -134,7 +135,7 @@ PROPS = {
     "C15": dict(
         functions=[PA + RFN + "handleDisconnect", D_ + "DispatcherBase.reconnect", PA + "WebSocketApp._start_ping_thread",
                    PA + "WebSocketApp._stop_ping_thread", K + "WebSocket.shutdown", PA + RFN + "read", PA + RFN + "teardown",
-                   SETSOCK + "@@reconnect=on"],
+                   SETSOCK + "@@reconnect=on", PA + "WebSocketApp.close"],
         functions_thorough=[SETSOCK, PA + "WebSocketApp.run_forever"],
         lemmas=[], bounded=[appsim.bounded("C15")],
         trusted_base=[T_TRANSPORT, T_CB, T_SEL, T_THREAD, "external dispatcher (rel) methods read/timeout/signal/abort are assumed contracts",
